@@ -39,6 +39,8 @@ def base_sampler(dom):
                 v = rng.uniform(0.15, 0.85, size=n)
             elif dom == 'gamma':
                 v = rng.uniform(0.5, 4.0, size=n)
+            elif dom == 'gamma_neg':          # negative non-integers: gammaln, psi, polygamma are smooth between the poles
+                v = -rng.integers(0, 3, size=n) - rng.uniform(0.25, 0.75, size=n)
             elif dom == 'small':
                 v = rng.uniform(-0.4, 0.4, size=n)
             elif dom in ('wcperm', 'wcperm_pos', 'symrep', 'rankdef'):
